@@ -342,7 +342,13 @@ func spanKey(red, mode, clause string) (key string, detail string) {
 	}
 	if strings.HasPrefix(red, "#!") {
 		if nl := strings.Index(red, "\n"); nl >= 0 {
-			if _, _, still := failsClause(red[nl+1:], mode, clause); !still {
+			// Tokenize(#!line + rest) lexes rest in template mode: the shebang handling is to blame
+			// only if rest alone is fine both in this mode and in template mode
+			_, _, still := failsClause(red[nl+1:], mode, clause)
+			if _, _, t := failsClause(red[nl+1:], modeTemplate, clause); t {
+				still = true
+			}
+			if !still {
 				return fmt.Sprintf("shebang: token positions refer to the text after the stripped first line [%s]", m), f.Detail
 			}
 		}
